@@ -372,6 +372,55 @@ def r4_capacity(ctx, P):
                  where=b.where(), site="zst capacity")
 
 
+def r6_zst_sibling_agreement(ctx, P):
+    R = "C08.R6"
+    ctx.rule(R, "sibling implementations of one operation (same method name in the slice box, the fixed vector and the "
+                "growable vectors) ask IS_ZST of the same type: the stored element type decides the dangling-pointer / "
+                "capacity usize::MAX convention, not the container's own element (e.g. [T; N] in into_flattened)")
+    groups = {}
+    for b in P.fn_bodies():
+        args = set()
+        for bb, t in b.switches():
+            e = b.prov_operand(t["d"], b.term_site(bb))
+            for x in walk_expr(e):
+                if x[0] == "assoc_const" and x[2] == "IS_ZST":
+                    args.add(" ".join(str(a) for a in x[3]))
+        if not args:
+            continue
+        outer = P.outermost_fn(b.item)
+        # rename-robust: generic parameter names are replaced by `_`
+        gnames = [g["name"] for g in b.item.get("generics", []) if g.get("kind") != "lt"]
+        norm = set()
+        for a in args:
+            for g in sorted(gnames, key=len, reverse=True):
+                a = re.sub(r"\b" + re.escape(g) + r"\b", "_", a)
+            norm.add(a)
+        args = norm
+        impl = P.impl_of_item.get(outer["id"])
+        if not impl or impl.get("trait"):
+            continue
+        if b.item["id"] != outer["id"]:
+            continue
+        groups.setdefault(b.item["name"], []).append((b, frozenset(args)))
+    n = 0
+    for name, members in sorted(groups.items()):
+        if len(members) < 2:
+            continue
+        n += 1
+        votes = {}
+        for b, a in members:
+            votes[a] = votes.get(a, 0) + 1
+        best = max(votes.values())
+        major = [a for a, v in votes.items() if v == best]
+        for b, a in members:
+            ok = len(votes) == 1 or (a in major and len(major) == 1)
+            ctx.inst(R, b.path, ok, f"`{name}`: IS_ZST asked of {sorted(a)} like its {len(members) - 1} sibling(s)" if ok else
+                     f"`{name}`: IS_ZST is asked of {sorted(a)} here but of {[sorted(m) for m in major]} in the sibling "
+                     "implementations: the zero-sized convention (dangling pointer, capacity usize::MAX, no growth) is applied "
+                     "to a different set of types than in the siblings", where=b.where(), site=f"IS_ZST type in {name}")
+    ctx.floor(R, "operation names with two or more ZST-aware sibling implementations", n, 8)
+
+
 from . import stale
 
 
@@ -384,5 +433,6 @@ def run(ctx, progs):
         r2_bounds(ctx, P)
         r3_shuffles(ctx, P)
         r4_capacity(ctx, P)
+        r6_zst_sibling_agreement(ctx, P)
         stale.rule(ctx, P, "C08.R5", ("bump_vec::BumpVec<", "mut_bump_vec::MutBumpVec<", "mut_bump_vec_rev::MutBumpVecRev<"), 20, 25)
     ctx.config = None
